@@ -267,6 +267,36 @@ class Inj:
             return True
     return False
 
+  def inj_const_port(s, fanout=False):
+    """a constant written in component H drives some free Bits end point in H, in a child of H or in a grandchild of H,
+    whatever its port kind: every host relation x port kind of the port-direction rule with a constant as the driver"""
+    rng, d = s.rng, s.d
+    for _ in range(12):
+      H = d.insts[rng.choice(sorted(d.insts))]
+      near = [H] * 2 + list(H.children) * 3 + [g for k in H.children for g in k.children]
+      K = rng.choice(near)
+      x = rng.choice(K.sigs)
+      e = sub_ep(rng, x)
+      if e.T[0] != 'b':
+        qs = [q for q in parts(x) if q[1][0] == 'b']
+        e = sub_ep(rng, x, rng.choice(qs))
+      if not s.b.free(e): continue
+      c = s.b.const_for(e.T, H.path, tied=e)
+      if c is None: continue
+      d.stmts[H.path].append(('conn', e, c) if rng.random() < 0.5 else ('conn', c, e))
+      s.b.drv[e.sig.root] = s.b.drv.get(e.sig.root, 0) | e.mask
+      s.b.writer_eps.append(c); s.b.reader_eps.append(e)
+      if fanout:
+        opts = s.b.reader_options(e); rng.shuffle(opts)
+        for y, host in opts[:6]:
+          vs = [v for v in fits(y, e.T, rng) if s.b.free(v)]
+          if vs:
+            v = rng.choice(vs)
+            d.stmts[host].append(('conn', e, v)); s.b.drv[v.sig.root] = s.b.drv.get(v.sig.root, 0) | v.mask
+            s.b.reader_eps.append(v); break
+      return True
+    return False
+
   def inj_loopback(s, at_parent):
     """child output port drives an input port of the same child: legal only when connected in the parent"""
     rng, d = s.rng, s.d
@@ -362,6 +392,8 @@ INJECTIONS = [
   ('port-blk:write-child-in(legal)', 2, lambda j: j.inj_port_blk('write-child-in')),
   ('port-blk:write-grandchild-in', 2, lambda j: j.inj_port_blk('write-grandchild-in')),
   ('port-net:any', 10, lambda j: j.inj_port_net()),
+  ('const-port:any', 8, lambda j: j.inj_const_port()),
+  ('const-port:any+fanout', 4, lambda j: j.inj_const_port(fanout=True)),
   ('loopback:inside', 3, lambda j: j.inj_loopback(False)),
   ('loopback:at-parent(legal)', 2, lambda j: j.inj_loopback(True)),
   ('op:upd-eq', 2, lambda j: j.inj_op('upd-eq')),
@@ -483,7 +515,7 @@ def run(ctx):
   import pymtl3
   quick = ctx.tier == 'quick'
   rng = ctx.rng
-  ndes = 280 if quick else 3000
+  ndes = 220 if quick else 3000
   names = [nm for nm, w, f in INJECTIONS for _ in range(w)]
   cases_bit, cases_faith, meta = [], [], []
   junk = []
